@@ -1672,7 +1672,7 @@ SUBS = [
         "history",
         st_history,
         run_history,
-        quick=4000,
+        quick=3200,
         thorough=120000,
         rule=">= 1 index op with a negative value / mask / index array and >= 1 structural op (del, concatenate, stack, repeat) on a container with bonds or box",
         clauses="every container equals the list-of-atoms model after every step; lengths/depths of annotations, coord, box, bonds agree; bonds connect the same atoms (uid identity); invalid operations raise",
@@ -1681,7 +1681,7 @@ SUBS = [
         "copy_indep",
         st_copy_indep,
         run_copy_indep,
-        quick=1500,
+        quick=1200,
         thorough=40000,
         rule=">= 5 different kinds of mutation applied to one side of (original, copy) of a container with bonds or box",
         clauses="a copy equals its original and shares no mutable state with it (coord, every annotation, box, bonds, structure)",
